@@ -107,6 +107,12 @@ pub mod num_bigint {
         open spec fn shl_spec(self, rhs: usize) -> BigInt { of_int(bi(self) * (pow2(rhs as nat) as int)) }
     }
     impl core::ops::Shl<usize> for BigInt { type Output = BigInt; #[verifier::external_body] fn shl(self, rhs: usize) -> BigInt { unimplemented!() } }
+    impl ShrSpecImpl<i32> for BigInt {
+        open spec fn obeys_shr_spec() -> bool { true }
+        open spec fn shr_req(self, rhs: i32) -> bool { rhs >= 0 && bi(self) >= 0 }
+        open spec fn shr_spec(self, rhs: i32) -> BigInt { of_int(bi(self) / (pow2(rhs as nat) as int)) }
+    }
+    impl core::ops::Shr<i32> for BigInt { type Output = BigInt; #[verifier::external_body] fn shr(self, rhs: i32) -> BigInt { unimplemented!() } }
 
     impl BitAndSpecImpl<BigInt> for BigInt {
         open spec fn obeys_bitand_spec() -> bool { true }
